@@ -397,6 +397,21 @@ def r_parallel(idx, rep, rule="R-PARALLEL"):
             rep.check(ok, rule, key, m.where, "SimplexInfo.%s: %s" % (name, why), "in step")
 
 
+def _subalg_nf(idx, f, opened=None):
+    """a function of the sub-algorithm module in normal form: private single-exit helpers of the module opened at their call sites (`_reduce_to_vertex(simplex, i)`
+    is `simplex.select_vertex(i); ...` again), loops over literal tables unrolled (the loop variables substituted); no method is opened"""
+    cache = idx.__dict__.setdefault("_subalg_nf", {})
+    if f.key not in cache:
+        op = set()
+        node = inline_single_exit_helpers(idx, f.module, f.node, only=lambda c: getattr(c, "module", None) is f.module and c.name.startswith("_"), depth=3, opened=op)
+        keep = {n.func.attr for n in ast.walk(node) if isinstance(n, ast.Call) and isinstance(n.func, ast.Attribute)}
+        node.body = normalise_statements(idx, f.module, node.body, keep=tuple(keep), depth=0)
+        cache[f.key] = (node, op)
+    if opened is not None:
+        opened |= cache[f.key][1]
+    return cache[f.key][0]
+
+
 def r_dottable(idx, rep, rule="R-DOTTABLE"):
     """SimplexInfo.select_vertex / select_line_segment / select_face compact the simplex when the vertices (i, j, k) become rows (0, 1, 2): row r of
     points / indices_polytope1 / indices_polytope2 must hold what row P_r held, and entry [r, c] (r >= c) of the lower-triangular table of inner
@@ -417,12 +432,17 @@ def r_dottable(idx, rep, rule="R-DOTTABLE"):
         # the selections that the sub-algorithm really makes: the literal index tuples at the call sites of the module (they are not all ascending:
         # select_face(0, 3, 2), select_line_segment(2, 1) ...); a call with a non-literal index is reported as not decided
         sels = set()
-        for g_ in idx.module(O).functions.values():
-            for c_ in calls(g_.node):
+        opened_ = set()
+        nfs = [(g_, _subalg_nf(idx, g_, opened_)) for g_ in idx.module(O).functions.values() if g_.cls is None] + \
+              [(g_, g_.node) for g_ in idx.module(O).functions.values() if g_.cls is not None]
+        for g_, gnode in nfs:
+            for c_ in calls(gnode):
                 if isinstance(c_.func, ast.Attribute) and c_.func.attr == name and g_.key != m.key:
                     vals = [const(a_) for a_ in c_.args]
                     if len(vals) == k and all(isinstance(v_, int) and not isinstance(v_, bool) for v_ in vals):
                         sels.add(tuple(vals))
+                    elif g_.key in opened_:
+                        continue          # a private helper that forwards its parameters: its call sites were opened and are enumerated there
                     else:
                         rep.unknown(rule, "%s|call %s" % (m.key, u(c_)[:60]), "%s:%d" % (g_.module.relpath, c_.lineno), "selection with non-literal indices: not enumerated")
         if not sels:
@@ -809,7 +829,7 @@ def r_johnsonopt(idx, rep, rule="R-JOHNSONOPT"):
     for fname, n in (("_distance_subalgorithm_line_segment", 2), ("_distance_subalgorithm_face", 3), ("_distance_subalgorithm_tetrahedron", 4)):
         f = idx.func(O + "::" + fname)
         dname = f.params()[1]
-        for st in f.node.body:
+        for st in _subalg_nf(idx, f).body:
             if not (isinstance(st, ast.If) and isinstance(st.test, ast.Call) and isinstance(st.test.func, ast.Attribute) and u(st.test.func.value) == dname):
                 continue
             sel = [c for c in calls(st.body) if isinstance(c.func, ast.Attribute) and c.func.attr.startswith("select_")]
